@@ -196,4 +196,15 @@ def hasBigPort (v6 : Str → Bool) : Kind → Str → Bool
   | .mxc, s => mxc (portTooBig (gramHost v6)) (fun _ => true) s
   | _, _ => false
 
+/-- The same exclusion on the structure side (`structHost` instead of `gramHost`), for the converse
+"required structure ⇒ accepted". -/
+def structBigPort (v6 : Str → Bool) : Kind → Str → Bool
+  | .server, s => portTooBig (structHost v6) s
+  | .user, s => delimited 64 (fun _ => true) (portTooBig (structHost v6)) s
+  | .alias, s => delimited 35 (fun _ => true) (portTooBig (structHost v6)) s
+  | .roomOrAlias, s => delimited 35 (fun _ => true) (portTooBig (structHost v6)) s
+  | .event, s => delimited 36 (fun _ => true) (portTooBig (structHost v6)) s
+  | .mxc, s => mxc (portTooBig (structHost v6)) (fun _ => true) s
+  | _, _ => false
+
 end Ruma.Spec.IdGrammar
